@@ -473,6 +473,13 @@ def _version(it, a, kw, node):
     return "<version>"
 
 
+def _sorted(it, a, kw, node):
+    items = it.iter_concrete(a[0], node)
+    if any(is_sym(x) for x in items) or kw:
+        raise AnalysisError(f"{it.where(node)}: sorted() of symbolic values / with a key")
+    return sorted(items)
+
+
 def _map(it, a, kw, node):
     I = _I()
     fn, seqs = a[0], a[1:]
@@ -539,7 +546,7 @@ _TABLE = {
     "abs": _abs, "float": _float, "divmod": _divmod,
     "typing.cast": _cast, "typing.NewType": _newtype, "typing.TypeVar": _typevar,
     "math.ceil": _ceil, "math.log2": _log2, "hmac.new": _hmac_new,
-    "int.from_bytes": _from_bytes, "map": _map, "functools.reduce": _reduce,
+    "int.from_bytes": _from_bytes, "map": _map, "functools.reduce": _reduce, "sorted": _sorted,
     "importlib.metadata.version": _version,
 }
 
